@@ -651,11 +651,13 @@ class KnownMultiplierStringType(Type):
                 length = self.minimum
 
         data = bytearray()
+        orig_bits_per_character = integer_as_number_of_bits_power_of_two(
+            len(self.ALPHABET) - 1)
 
         for _ in range(length):
             value = decoder.read_non_negative_binary_integer(self.bits_per_character)
             value = self.permitted_alphabet.decode(value)
-            data += to_byte_array(value, self.bits_per_character)
+            data += to_byte_array(value, orig_bits_per_character)
 
         return data.decode(self.ENCODING)
 
